@@ -163,15 +163,34 @@ pub fn run_session(ops: &[SOp], final_sync: bool, local: &mut Local) -> Check {
 
 pub fn big_session_strategy() -> impl Strategy<Value = Vec<SOp>> {
     let far_block = prop_oneof![
-        Just(0u64), Just(1), Just(8191), Just(8192), Just(8193), Just(32767), Just(32768), Just(32769), Just(39999),
-        0u64..40000,
+        Just(0u64), Just(1), Just(5), Just(8191), Just(8192), Just(8193), Just(32767), Just(32768), Just(32769), Just(39999), Just(65535), Just(65536),
+        0u64..40000, 0u64..98000,
     ];
     let req = (far_block, prop_oneof![Just(Upg::Full), any::<u16>().prop_map(Upg::Partial), Just(Upg::None)])
         .prop_map(|(i, u)| SOp::R(Req { target: Target::BlockAt(i), upgrade: u, seek: Seek::None }));
-    let step = prop_oneof![8 => req, 1 => Just(SOp::RReopen), 1 => wblk_strategy().prop_map(|b| SOp::W(Op::Append(b)))];
-    (prop_oneof![Just(40000u32), Just(32769), Just(65537)], prop::collection::vec(step, 4..14)).prop_map(|(n, mut v)| {
+    let step = prop_oneof![
+        8 => req,
+        1 => Just(SOp::RReopen),
+        1 => wblk_strategy().prop_map(|b| SOp::W(Op::Append(b))),
+        // writer-side clears placed at bitfield page ends (single blocks up to whole pages)
+        2 => page_clear_strategy().prop_map(SOp::W),
+    ];
+    (prop_oneof![Just(40000u32), Just(32769), Just(65537), Just(70000), Just(98305)], prop::collection::vec(step, 4..14)).prop_map(|(n, mut v)| {
         let mut s = vec![SOp::W(Op::Big(n))];
         s.append(&mut v);
+        s
+    })
+}
+
+/// Writer of 3-4 bitfield pages with page-relative clears, a replica fetching blocks around them.
+pub fn page_clear_session_strategy() -> impl Strategy<Value = Vec<SOp>> {
+    let blocks = prop::collection::vec(prop_oneof![0u64..32768, 32768u64..65536, 65536u64..70000, Just(5u64), Just(32767), Just(32768), Just(65535), Just(65536)], 3..8);
+    (page_clear_history_strategy(), blocks).prop_map(|(ops, blocks)| {
+        let mut s: Vec<SOp> = ops.into_iter().map(SOp::W).collect();
+        for i in blocks {
+            s.push(SOp::R(Req { target: Target::BlockAt(i), upgrade: Upg::Full, seek: Seek::None }));
+        }
+        s.push(SOp::RReopen);
         s
     })
 }
@@ -198,6 +217,7 @@ pub fn run(ctx: &Ctx) {
     ctx.extra("exhaustive_stage", json!({"growth_pairs_up_to": nmax, "single_request_sessions": n, "fetch_order_sessions": no, "exhaustive": true}));
     random_stage(ctx, "random", ctx.tier.pick(6_000, 400_000), || session_strategy(40), |ops: &Vec<SOp>, local| run_session(ops, true, local));
     random_stage(ctx, "big", ctx.tier.pick(48, 2_000), big_session_strategy, |ops: &Vec<SOp>, local| run_session(ops, false, local));
+    random_stage(ctx, "page-clears", ctx.tier.pick(32, 800), page_clear_session_strategy, |ops: &Vec<SOp>, local| run_session(ops, false, local));
 }
 
 pub fn replay(case: &Value) -> Check {
